@@ -38,7 +38,7 @@ Inductive rkind := KSub | KLeave (unsub : bool) | KDel.
    r_aschan = types.IsChannel(msg.Original): the client wrote chnXXX *)
 Record req := mkReq { r_sid : sid; r_rid : rid; r_kind : rkind; r_topic : tid; r_init : bool; r_aschan : bool }.
 
-Inductive code := COk | CAlready | CNotJoined | CAttachFirst | CLocked | CNotFound | CDenied | CNoAction | CEvicted.
+Inductive code := COk | CAlready | CNotJoined | CAttachFirst | CLocked | CNotFound | CDenied | CNoAction | CEvicted | CUseOther.
 
 (* ghost outbox entry: ctrl with the request id (None: unsolicited notice), code, topic *)
 Record reply := mkRep { p_rid : option rid; p_code : code; p_topic : tid }.
@@ -390,7 +390,11 @@ Definition exec (l : label) (c : config) : option config :=
                                                (i_setsessions y (if mem s (i_sessions y) then i_sessions y else s :: i_sessions y))
                                                (if mem s (i_sessions y) then i_chansub y
                                                 else if asChan then s :: i_chansub y else i_chansub y))
-                     else on_sess c s (fun x => s_reply x (rep r CDenied))
+                     else
+                       (* thisUserSub refuses (the per-user records are not in this model: [ok] is any outcome):
+                          a channel name used by a group subscriber: 303 "use the group name" (l.1646-1652);
+                          a group name without the J permission: 403 (l.1590-1593) *)
+                       on_sess c s (fun x => s_reply x (rep r (if asChan then CUseOther else CDenied)))
                  end in
           Some (on_sess c s s_donereq)
       end
